@@ -207,5 +207,26 @@ func redefinitionCases(c *run.Ctx) {
 		c.Count("redefinition_cases", 1)
 		runCase(c, cs)
 		c.End()
+		// the same through the binary, the second definition (and what follows it) in a second --funcs file: the
+		// registry the command line compiles against must agree with the loader about which definition is in force
+		lines := strings.SplitAfter(o.file, "\n")
+		if len(lines) >= 3 {
+			name := strings.SplitN(lines[0], " ", 2)[0]
+			cut := -1
+			for li := 1; li < len(lines); li++ {
+				if strings.HasPrefix(lines[li], name+" ") {
+					cut = li
+					break
+				}
+			}
+			if cut > 0 {
+				cli := &Case{Kind: "cli", Tpl: o.tpl, Ref: o.ref, File: o.file, Files: []string{strings.Join(lines[:cut], ""), strings.Join(lines[cut:], "")},
+					Ctxs: []Ctx{{E: []string{"root", "7"}, K: map[string]string{}}, {E: []string{"ROOTx", "12"}, K: map[string]string{}}}}
+				c.Begin(cli, 120*time.Second)
+				c.Count("redefinition_cli_cases_two_files", 1)
+				runCase(c, cli)
+				c.End()
+			}
+		}
 	}
 }
